@@ -312,6 +312,40 @@ func (p *Parser) parseOuterTemplate() ([]Node, error) {
 
 // Parse an expression
 func (p *Parser) parseExpression() (Node, error) {
+	// Parse the first operand
+	expr, err := p.parseOperand()
+	if err != nil {
+		return nil, err
+	}
+
+	// Check for binary operators (and, or, ==, !=, <, >, etc.)
+	// Each call consumes one operator together with everything to its right that binds
+	// tighter; operators that bind as tightly or less take the result as their left operand,
+	// so equal precedence groups from the left
+	for {
+		if _, ok := p.peekBinaryOperator(); !ok {
+			break
+		}
+		expr, err = p.parseBinaryExpression(expr)
+		if err != nil {
+			return nil, err
+		}
+	}
+
+	// Check for ternary operator (? :)
+	if p.tokenIndex < len(p.tokens) &&
+		p.tokens[p.tokenIndex].Type == TOKEN_PUNCTUATION &&
+		p.tokens[p.tokenIndex].Value == "?" {
+
+		return p.parseConditionalExpression(expr)
+	}
+
+	return expr, nil
+}
+
+// parseOperand parses one operand of an operator: a primary expression followed by its index
+// accesses and filters, which bind tighter than every operator
+func (p *Parser) parseOperand() (Node, error) {
 	// Parse the primary expression first
 	expr, err := p.parseSimpleExpression()
 	if err != nil {
@@ -359,35 +393,55 @@ func (p *Parser) parseExpression() (Node, error) {
 		}
 	}
 
-	// Check for binary operators (and, or, ==, !=, <, >, etc.)
-	// Loop to handle multiple binary operators in sequence, such as 'hello' ~ ' ' ~ 'world'
-	for p.tokenIndex < len(p.tokens) &&
-		(p.tokens[p.tokenIndex].Type == TOKEN_OPERATOR ||
-			(p.tokens[p.tokenIndex].Type == TOKEN_NAME &&
-				(p.tokens[p.tokenIndex].Value == "and" ||
-					p.tokens[p.tokenIndex].Value == "or" ||
-					p.tokens[p.tokenIndex].Value == "in" ||
-					p.tokens[p.tokenIndex].Value == "not" ||
-					p.tokens[p.tokenIndex].Value == "is" ||
-					p.tokens[p.tokenIndex].Value == "matches" ||
-					p.tokens[p.tokenIndex].Value == "starts" ||
-					p.tokens[p.tokenIndex].Value == "ends"))) {
-
-		expr, err = p.parseBinaryExpression(expr)
-		if err != nil {
-			return nil, err
-		}
-	}
-
-	// Check for ternary operator (? :)
-	if p.tokenIndex < len(p.tokens) &&
-		p.tokens[p.tokenIndex].Type == TOKEN_PUNCTUATION &&
-		p.tokens[p.tokenIndex].Value == "?" {
-
-		return p.parseConditionalExpression(expr)
-	}
-
 	return expr, nil
+}
+
+// nextTokenIsName reports whether the token after the current one is the given word
+func (p *Parser) nextTokenIsName(word string) bool {
+	return p.tokenIndex+1 < len(p.tokens) &&
+		p.tokens[p.tokenIndex+1].Type == TOKEN_NAME &&
+		p.tokens[p.tokenIndex+1].Value == word
+}
+
+// peekBinaryOperator reports the binary operator at the current token, if there is one,
+// without consuming it. Operators written as two words ("not in", "is not", "starts with",
+// "ends with") are returned in that form.
+func (p *Parser) peekBinaryOperator() (string, bool) {
+	if p.tokenIndex >= len(p.tokens) {
+		return "", false
+	}
+	token := p.tokens[p.tokenIndex]
+	if token.Type == TOKEN_OPERATOR {
+		return token.Value, true
+	}
+	if token.Type != TOKEN_NAME {
+		return "", false
+	}
+	switch token.Value {
+	case "and", "or", "in", "matches":
+		return token.Value, true
+	case "not":
+		if p.nextTokenIsName("in") {
+			return "not in", true
+		}
+		return "not", true
+	case "is":
+		if p.nextTokenIsName("not") {
+			return "is not", true
+		}
+		return "is", true
+	case "starts":
+		if p.nextTokenIsName("with") {
+			return "starts with", true
+		}
+		return "starts", true
+	case "ends":
+		if p.nextTokenIsName("with") {
+			return "ends with", true
+		}
+		return "ends", true
+	}
+	return "", false
 }
 
 // Parse ternary conditional expression (condition ? true_expr : false_expr)
@@ -646,37 +700,6 @@ func (p *Parser) parseSimpleExpression() (Node, error) {
 		// Handle parenthesized expressions
 		if token.Value == "(" {
 			p.tokenIndex++ // Skip "("
-
-			// Check for unary operator immediately after opening parenthesis
-			if p.tokenIndex < len(p.tokens) &&
-				p.tokens[p.tokenIndex].Type == TOKEN_OPERATOR &&
-				(p.tokens[p.tokenIndex].Value == "-" || p.tokens[p.tokenIndex].Value == "+") {
-
-				// Handle unary operation inside parentheses
-				unaryToken := p.tokens[p.tokenIndex]
-				operator := unaryToken.Value
-				line := unaryToken.Line
-				p.tokenIndex++ // Skip the operator
-
-				// Parse the operand
-				operand, err := p.parseExpression()
-				if err != nil {
-					return nil, err
-				}
-
-				// Create a unary node
-				expr := NewUnaryNode(operator, operand, line)
-
-				// Expect closing parenthesis
-				if p.tokenIndex >= len(p.tokens) ||
-					p.tokens[p.tokenIndex].Type != TOKEN_PUNCTUATION ||
-					p.tokens[p.tokenIndex].Value != ")" {
-					return nil, fmt.Errorf("expected closing parenthesis at line %d", token.Line)
-				}
-				p.tokenIndex++ // Skip ")"
-
-				return expr, nil
-			}
 
 			// Regular parenthesized expression
 			expr, err := p.parseExpression()
@@ -1095,75 +1118,27 @@ func (p *Parser) parseBinaryExpression(left Node) (Node, error) {
 	// Get precedence of current operator
 	precedence := getOperatorPrecedence(operator)
 
-	// Parse the right side expression
-	right, err := p.parseSimpleExpression()
+	// Parse the right side operand
+	right, err := p.parseOperand()
 	if err != nil {
 		return nil, err
 	}
 
-	// Create the current binary node
-	binaryNode := NewBinaryNode(operator, left, right, line)
-
-	// Check for another binary operator
-	if p.tokenIndex < len(p.tokens) &&
-		(p.tokens[p.tokenIndex].Type == TOKEN_OPERATOR ||
-			(p.tokens[p.tokenIndex].Type == TOKEN_NAME &&
-				(p.tokens[p.tokenIndex].Value == "and" ||
-					p.tokens[p.tokenIndex].Value == "or" ||
-					p.tokens[p.tokenIndex].Value == "in" ||
-					p.tokens[p.tokenIndex].Value == "not" ||
-					p.tokens[p.tokenIndex].Value == "is" ||
-					p.tokens[p.tokenIndex].Value == "matches" ||
-					p.tokens[p.tokenIndex].Value == "starts" ||
-					p.tokens[p.tokenIndex].Value == "ends"))) {
-
-		// Get the next operator and its precedence
-		nextOperator := p.tokens[p.tokenIndex].Value
-		if p.tokens[p.tokenIndex].Type == TOKEN_NAME {
-			// Handle multi-word operators
-			if nextOperator == "not" && p.tokenIndex+1 < len(p.tokens) &&
-				p.tokens[p.tokenIndex+1].Type == TOKEN_NAME &&
-				p.tokens[p.tokenIndex+1].Value == "in" {
-				nextOperator = "not in"
-			} else if nextOperator == "is" && p.tokenIndex+1 < len(p.tokens) &&
-				p.tokens[p.tokenIndex+1].Type == TOKEN_NAME &&
-				p.tokens[p.tokenIndex+1].Value == "not" {
-				nextOperator = "is not"
-			} else if nextOperator == "starts" && p.tokenIndex+1 < len(p.tokens) &&
-				p.tokens[p.tokenIndex+1].Type == TOKEN_NAME &&
-				p.tokens[p.tokenIndex+1].Value == "with" {
-				nextOperator = "starts with"
-			} else if nextOperator == "ends" && p.tokenIndex+1 < len(p.tokens) &&
-				p.tokens[p.tokenIndex+1].Type == TOKEN_NAME &&
-				p.tokens[p.tokenIndex+1].Value == "with" {
-				nextOperator = "ends with"
-			}
+	// As long as the next operator binds tighter than this one, it takes the right operand
+	// first (1 + 2 * 3 * 4 is 1 + ((2 * 3) * 4)). An operator that binds as tightly or less
+	// is left to the caller, which makes this node its left operand
+	for {
+		nextOperator, ok := p.peekBinaryOperator()
+		if !ok || getOperatorPrecedence(nextOperator) <= precedence {
+			break
 		}
-
-		nextPrecedence := getOperatorPrecedence(nextOperator)
-
-		// If the next operator has higher precedence, we need to parse it first
-		if nextPrecedence > precedence {
-			// Replace the right side with a binary expression
-			newRight, err := p.parseBinaryExpression(right)
-			if err != nil {
-				return nil, err
-			}
-
-			// Update the binary node with the new right side
-			binaryNode = NewBinaryNode(operator, left, newRight, line)
+		right, err = p.parseBinaryExpression(right)
+		if err != nil {
+			return nil, err
 		}
 	}
 
-	// Check for ternary operator after parsing the binary expression
-	if p.tokenIndex < len(p.tokens) &&
-		p.tokens[p.tokenIndex].Type == TOKEN_PUNCTUATION &&
-		p.tokens[p.tokenIndex].Value == "?" {
-		// This is a conditional expression, use the binary node as the condition
-		return p.parseConditionalExpression(binaryNode)
-	}
-
-	return binaryNode, nil
+	return NewBinaryNode(operator, left, right, line), nil
 }
 
 // parseEndTag handles closing tags like endif, endfor, endblock, etc.
